@@ -27,7 +27,7 @@ POLICY = {
     '_macs': ['hmac-sha2-256-etm@openssh.com', 'umac-128-etm@openssh.com'],
     '_hostkey_sizes': {'rsa-sha2-512': {'hostkey_size': 3072, 'ca_key_type': '', 'ca_key_size': 0}, 'ssh-ed25519': {'hostkey_size': 256, 'ca_key_type': '', 'ca_key_size': 0},
                        'ssh-ed25519-cert-v01@openssh.com': {'hostkey_size': 256, 'ca_key_type': 'ssh-rsa', 'ca_key_size': 4096}},
-    '_dh_modulus_sizes': {'diffie-hellman-group-exchange-sha256': 3072},
+    '_dh_modulus_sizes': {'diffie-hellman-group-exchange-sha1': 2048, 'diffie-hellman-group-exchange-sha256': 3072},
 }
 PEER = {
     'key_algorithms': ['rsa-sha2-512', 'ssh-ed25519', 'ssh-ed25519-cert-v01@openssh.com'],
@@ -37,7 +37,7 @@ PEER = {
     'compression': ['none'],
     'host_keys': {'rsa-sha2-512': {'hostkey_size': 3072, 'ca_key_type': '', 'ca_key_size': 0}, 'ssh-ed25519': {'hostkey_size': 256, 'ca_key_type': '', 'ca_key_size': 0},
                   'ssh-ed25519-cert-v01@openssh.com': {'hostkey_size': 256, 'ca_key_type': 'ssh-rsa', 'ca_key_size': 4096}},
-    'dh_modulus_sizes': {'diffie-hellman-group-exchange-sha256': 3072},
+    'dh_modulus_sizes': {'diffie-hellman-group-exchange-sha1': 2048, 'diffie-hellman-group-exchange-sha256': 3072},
 }
 LIST_FIELDS = (('_host_keys', 'key_algorithms', 'Host keys'), ('_kex', 'kex_algorithms', 'Key exchanges'), ('_ciphers', 'encryption', 'Ciphers'), ('_macs', 'mac', 'MACs'))
 
@@ -223,7 +223,10 @@ def peers(pol=None):
     var('a sized host key type not presented', host_keys=hk)
     for d in (+1024, -1024, +1, -1):
         var('group-exchange modulus %+d' % d, dh_modulus_sizes={k: v + d for k, v in PEER['dh_modulus_sizes'].items()})
+        for t in PEER['dh_modulus_sizes']:
+            var('group-exchange modulus of %s %+d' % (t, d), dh_modulus_sizes=dict(PEER['dh_modulus_sizes'], **{t: PEER['dh_modulus_sizes'][t] + d}))
     var('group exchange not measured', dh_modulus_sizes={})
+    var('one group exchange not measured', dh_modulus_sizes={k: v for k, v in list(PEER['dh_modulus_sizes'].items())[:1]})
     var('compression differs', compression=['none', 'zlib@openssh.com'])
     return out
 
